@@ -258,7 +258,7 @@ fn case(rng: &mut Rng, ctx: &mut Ctx, forced: Option<(&str, Vec<u8>)>) {
         _ => None,
     };
     let limit = limit_opt.unwrap_or(4 * 1024 * 1024);
-    let bs = *rng.pick(&[1usize, 5, 64, 8192]);
+    let bs = *rng.pick(&[0usize, 1, 5, 64, 8192]);
     let (m, wire) = match forced {
         Some((m, w)) => (m.to_string(), w),
         None => {
